@@ -19,6 +19,7 @@ use std::sync::{Arc, Mutex};
 pub struct TM;
 impl Message for TM {}
 pub struct Dummy;
+#[cfg_attr(feature = "asynctrait", ractor::async_trait)]
 impl Actor for Dummy {
     type Msg = TM;
     type State = ();
